@@ -140,7 +140,7 @@ fn pass0_internal(
                                     t: segment.t,
                                     items: vec![],
                                 });
-                                pass0_internal(segments[0].clone(), context, macroses)?;
+                                pass0_internal(segment.clone(), context, macroses)?;
                             } else {
                                 context.add_segment(segment.clone());
                             }
